@@ -27,7 +27,7 @@ def run(ctx):
                     max_loops=3 if ctx.quick else 4, routings_per_graph=1, kinds=("uniform", "uniform", "corner"), scales=(1, 1, 1, Fraction(1, 2 ** 33), 2 ** 30))
     # exact integer degrees of divergence and even dimensions (integral exponents of powf), >= 4 loops with shifts on several loops
     ss += S.generate(ctx, 0, 3 if ctx.quick else 6, routings_per_graph=1, kinds=("uniform",),
-                     special=("integer_dod:4", "integer_dod:2", "integer_dod:3", "integer_dod:5", "integer_dod:6", "integer_dod:1", "vacuum_massless", "vacuum_massless", "vacuum",
+                     special=("integer_dod:4", "integer_dod:2", "integer_dod:3", "integer_dod:5", "integer_dod:6", "integer_dod:1", "vacuum_massless", "vacuum_massless", "vacuum_mixed", "vacuum_mixed", "vacuum",
                               "repeated_weights", "weights_equal_dod", "repeated_weights", "weights_equal_dod", "weights_equal_dod") * (1 if ctx.quick else 4))
     # a vertex with two external legs is listed twice in `externals`
     ss += S.generate(ctx, 5 if ctx.quick else 25, 3, max_e=5, max_loops=3, routings_per_graph=1, kinds=("uniform",), ext_modes=["dup"])
